@@ -1158,8 +1158,16 @@ impl Compiler {
                     let skip_default = func_compiler.builder.emit_jump_if_false(is_undefined);
                     func_compiler.builder.free_register(is_undefined);
 
-                    // Use default value
-                    func_compiler.compile_expression(&assign_pat.right, actual_value)?;
+                    // Use default value (an anonymous function takes the parameter's name)
+                    let default_name = match assign_pat.left.as_ref() {
+                        crate::ast::Pattern::Identifier(id) => Some(id.name.cheap_clone()),
+                        _ => None,
+                    };
+                    func_compiler.compile_expression_with_inferred_name(
+                        &assign_pat.right,
+                        actual_value,
+                        default_name,
+                    )?;
                     let skip_arg = func_compiler.builder.emit_jump();
 
                     // Use provided argument
@@ -1885,7 +1893,7 @@ impl Compiler {
             _ => return Ok(()), // Skip computed keys for now
         };
 
-        let name_idx = self.builder.add_string(field_name)?;
+        let name_idx = self.builder.add_string(field_name.cheap_clone())?;
 
         // Process decorators
         // Evaluation order: top-to-bottom (forward iteration)
@@ -2095,7 +2103,15 @@ impl Compiler {
                     let skip_default = func_compiler.builder.emit_jump_if_false(is_undefined);
                     func_compiler.builder.free_register(is_undefined);
 
-                    func_compiler.compile_expression(&assign_pat.right, actual_value)?;
+                    let default_name = match assign_pat.left.as_ref() {
+                        crate::ast::Pattern::Identifier(id) => Some(id.name.cheap_clone()),
+                        _ => None,
+                    };
+                    func_compiler.compile_expression_with_inferred_name(
+                        &assign_pat.right,
+                        actual_value,
+                        default_name,
+                    )?;
                     let skip_arg = func_compiler.builder.emit_jump();
 
                     func_compiler.builder.patch_jump(skip_default);
@@ -2289,7 +2305,7 @@ impl Compiler {
             _ => return Ok(()), // Skip computed/private for now
         };
 
-        let name_idx = self.builder.add_string(field_name)?;
+        let name_idx = self.builder.add_string(field_name.cheap_clone())?;
 
         // Get this
         let this_reg = self.builder.alloc_register()?;
@@ -2298,7 +2314,8 @@ impl Compiler {
         // Compile field initializer or use undefined
         let value_reg = self.builder.alloc_register()?;
         if let Some(init) = &field.value {
-            self.compile_expression(init, value_reg)?;
+            // an anonymous function / class stored in a field is named after the field
+            self.compile_expression_with_inferred_name(init, value_reg, Some(field_name))?;
         } else {
             self.builder.emit(Op::LoadUndefined { dst: value_reg });
         }
@@ -2352,12 +2369,13 @@ impl Compiler {
             _ => return Ok(()), // Skip computed/private for now
         };
 
-        let name_idx = self.builder.add_string(field_name)?;
+        let name_idx = self.builder.add_string(field_name.cheap_clone())?;
 
         // Compile field initializer or use undefined
         let value_reg = self.builder.alloc_register()?;
         if let Some(init) = &field.value {
-            self.compile_expression(init, value_reg)?;
+            // an anonymous function / class stored in a field is named after the field
+            self.compile_expression_with_inferred_name(init, value_reg, Some(field_name))?;
         } else {
             self.builder.emit(Op::LoadUndefined { dst: value_reg });
         }
@@ -2402,7 +2420,7 @@ impl Compiler {
             _ => return Ok(()), // Should only be called for private fields
         };
 
-        let name_idx = self.builder.add_string(field_name)?;
+        let name_idx = self.builder.add_string(field_name.cheap_clone())?;
 
         // Get this
         let this_reg = self.builder.alloc_register()?;
@@ -2411,7 +2429,8 @@ impl Compiler {
         // Compile field initializer or use undefined
         let value_reg = self.builder.alloc_register()?;
         if let Some(init) = &field.value {
-            self.compile_expression(init, value_reg)?;
+            // an anonymous function / class stored in a field is named after the field
+            self.compile_expression_with_inferred_name(init, value_reg, Some(field_name))?;
         } else {
             self.builder.emit(Op::LoadUndefined { dst: value_reg });
         }
@@ -2490,12 +2509,13 @@ impl Compiler {
             _ => return Ok(()), // Should only be called for private fields
         };
 
-        let name_idx = self.builder.add_string(field_name)?;
+        let name_idx = self.builder.add_string(field_name.cheap_clone())?;
 
         // Compile field initializer or use undefined
         let value_reg = self.builder.alloc_register()?;
         if let Some(init) = &field.value {
-            self.compile_expression(init, value_reg)?;
+            // an anonymous function / class stored in a field is named after the field
+            self.compile_expression_with_inferred_name(init, value_reg, Some(field_name))?;
         } else {
             self.builder.emit(Op::LoadUndefined { dst: value_reg });
         }
